@@ -13,7 +13,10 @@ PROP = dict(
                     "(every first-read length incl. past the end, with and without target, equal-step and PRNG plans), "
                     "mpt_memchr/memrchr/memstr/memrstr/memfcn/memrfcn (every byte value present + absent ones, PRNG sets), mpt_memtok "
                     "(36 token/comment/escape combinations), mpt_memcpy (every length -1..max+1 into a second fragmentation), "
-                    "mpt_message_argv loops and mpt_array_message for 6 separators, mpt_message_append onto 3 array fills - on "
+                    "mpt_message_argv loops and mpt_array_message for 6 separators, mpt_message_append onto 3 array fills and onto "
+                    "fixed-capacity target buffers (harness implementation of the buffer interface whose detach() refuses growth; up to 8 "
+                    "capacities around the message/head-part length x preload 0/2: return sign, buffer identity, used length and "
+                    "content must equal the contiguous append on an identical target, also when a later part is refused) - on "
                     "the cursor forms 'first fragment + list', 'everything in the list', 'left inside the first fragment by an "
                     "earlier read' and on the contiguous copy; fragments, fragment lists and targets are separate exact-size "
                     "heap blocks under ASan.  C++ leg: message::read/length over every fragment list of lengths 0..8 (10) and "
@@ -31,7 +34,9 @@ PROP = dict(
                            "monitor:memtok-none": 100000, "monitor:memcpy": 100000, "monitor:argv-loop": 100000,
                            "monitor:array_message": 100000, "monitor:append": 100000, "monitor:get-split": 5000,
                            "monitor:get-refused": 5000, "state:two-or-more-fragments": 100000,
-                           "state:has-empty-fragment": 100000, "state:wrapped-ring": 1000}),
+                           "state:has-empty-fragment": 100000, "state:wrapped-ring": 1000,
+                           "monitor:append-fixed-refused": 100000, "monitor:append-fixed-refused-after-head": 50000,
+                           "monitor:append-fixed-accepted": 100000}),
               dict(name="c17_cxx", src=["c17_cxx.cpp"], libs=["mpt++", "mptio", "mptplot", "mptcore"], batch=512,
                    floors={"message::read": 200000, "message::length": 200000, "monitor:read-step": 200000,
                            "state:two-or-more-fragments": 10000, "state:has-empty-fragment": 10000})],
